@@ -575,6 +575,13 @@ func init() {
 			bad = append(bad, jarr(jarr(jstr("WB_REQ_DATA"), jarr(jarr(jstr("WB_EXTERN_DATA"), jarr(jnum("1"), el, jnum("3")))))),
 				jarr(jarr(jnum("12345"), jstr("ByteArray"), jarr(el))), jarr(jobj().set("Tag", jnum("12345")).set("DataType", jstr("ByteArray")).set("Value", jarr(jnum("0"), el))))
 		}
+		// null where a tag is expected; time stamps written in other layouts than RFC 3339
+		bad = append(bad, jarr(jarr(jnull())), jarr(jarr(jnull(), jstr("CString"), jstr("abc"))), jarr(jarr(jnull(), jstr("x"))),
+			jarr(jarr(jstr("EMS_REQ_SET_POWER"), jarr(jarr(jnull(), jstr("UChar8"), jnum("3"))))), jarr(jarr(jnull(), jnull())))
+		for _, ts := range []string{"Thu, 01 Oct 2026 12:00:00 CEST", "Thu, 01 Oct 2026 12:00:00 +0200", "01 Oct 26 12:00 UTC", "Thursday, 01-Oct-26 12:00:00 UTC", "Thu Oct  1 12:00:00 UTC 2026",
+			"2026-10-01 12:00:00", "2026-10-01", "12:00:00", "2026-10-01T12:00:00", "1790855000", "2026-10-01T12:00:00+02", "2026-10-01t12:00:00z"} {
+			bad = append(bad, jarr(jarr(jnum("12345"), jstr("Timestamp"), jstr(ts))), jarr(jobj().set("Tag", jnum("12345")).set("DataType", jstr("Timestamp")).set("Value", jstr(ts))))
+		}
 		for i, b := range bad {
 			run(b, fmt.Sprintf("must-reject #%d", i), nil, true)
 		}
